@@ -75,21 +75,27 @@ def insertBy {α : Type} (key : α → Nat) (x : α) : List α → List α
 
 def sortBy {α : Type} (key : α → Nat) (xs : List α) : List α := xs.foldl (fun acc x => insertBy key x acc) []
 
-def dump (w : World) : String :=
-  let svcs := w.reg.map fun s =>
-    s!" {s.number}/{s.number}/{s.number}:{statusS s.status}:pid={optS s.pid}:np={optS s.nodePort}:mp={optS s.metricsPort}:rp={s.rpcPort}:v={s.version}"
+def svcS (s : Svc) : String :=
+  s!" {s.number}/{s.number}/{s.number}:{statusS s.status}:pid={optS s.pid}:np={optS s.nodePort}:mp={optS s.metricsPort}:rp={s.rpcPort}:v={s.version}"
+
+/-- in-memory registry, registry file, simulated OS -/
+def dump (s : Sys) : String :=
+  let w := s.w
   let inst := (sortBy (fun e => e.1) w.os.installed).map fun e => s!"{e.1}:{optS e.2}"
   let procs := (sortBy (fun p => p.pid) w.os.procs).map fun p => s!"{p.pid}@{p.svc}:{p.port}"
   let dirs := (sortBy id w.os.dirs).map toString
-  "R" ++ String.join svcs ++
+  "R" ++ String.join (w.reg.map svcS) ++ " | F" ++ String.join (s.file.map svcS) ++
     s!" | OS inst=[{",".intercalate inst}] procs=[{",".intercalate procs}] dirs=[{",".intercalate dirs}] np={w.os.nextPid} npt={w.os.nextPort}"
 
-def step (w : World) (ws : List String) : World × String :=
-  if ws = ["reset"] then (World.init, "ok") else
-  match parseOp ws with
-  | none => (w, s!"bad-op calls=0 | {dump w}")
+def parseSOp (ws : List String) : Option SOp :=
+  if ws = ["reload"] then some .reload else (parseOp ws).map .op
+
+def step (s : Sys) (ws : List String) : Sys × String :=
+  if ws = ["reset"] then (Sys.init, "ok") else
+  match parseSOp ws with
+  | none => (s, s!"bad-op calls=0 | {dump s}")
   | some op =>
-    match exec w op with
-    | (w', r, calls) => (w', s!"{r.text} calls={calls} | {dump w'}")
+    match execS s op with
+    | (s', r, calls) => (s', s!"{r.text} calls={calls} | {dump s'}")
 
 end SafeNet.Driver.Lifecycle
